@@ -1675,12 +1675,20 @@ fn g_roaaddrs(rng: &mut Rng, v4: bool, n: usize, strict: bool) -> String {
     let width: u32 = if v4 { 32 } else { 128 };
     let max = wmax(width);
     let mut v: Vec<String> = Vec::new();
+    let mut raw: Vec<(u128, u32)> = Vec::new();
     for _ in 0..n {
         if !v.is_empty() && rng.chance(1, 12) { let x = rng.pick(&v).clone(); v.push(x); continue }
-        let len = match rng.below(8) { 0 => 0, 1 => width, 2 => *rng.pick(&[8u32, 16, 24, 32]), _ => rng.range(0, width as u64) as u32 };
-        let mut bits = match rng.below(6) { 0 => 0, 1 => max, _ => rng.u128() & max };
+        // a prefix related to one already listed (round 15, C05-21): the same network address with a shorter
+        // (covering) or a longer (more specific) length, after or before the one it is related to
+        let related = if !raw.is_empty() && rng.chance(1, 5) { Some(*rng.pick(&raw)) } else { None };
+        let len = match related {
+            Some((_, l)) => match rng.below(3) { 0 if l > 0 => rng.range(0, l as u64 - 1) as u32, 1 if l < width => rng.range(l as u64 + 1, width as u64) as u32, _ => l },
+            None => match rng.below(8) { 0 => 0, 1 => width, 2 => *rng.pick(&[8u32, 16, 24, 32]), _ => rng.range(0, width as u64) as u32 },
+        };
+        let mut bits = match related { Some((b, _)) => b, None => match rng.below(6) { 0 => 0, 1 => max, _ => rng.u128() & max } };
         if len == 0 { bits = if rng.chance(1, 10) { bits } else { 0 }; }
         else if !rng.chance(1, 12) { bits = bits >> (width - len) << (width - len); }
+        raw.push((bits, len));
         let ml = match rng.below(6) {
             0 | 1 => String::new(),
             2 => format!("-{}", len),
